@@ -347,8 +347,62 @@ pub fn strategy(tier: Tier) -> BoxedStrategy<Case> {
         .boxed()
 }
 
+/// size_t arithmetic beyond 32 bits: one blake3_hasher_update of `len` zero bytes (lazily mapped
+/// zero pages) after a prefix, and a large finalize.
+#[derive(Clone, Debug, Serialize, Deserialize)]
+pub struct HugeC {
+    pub variant: u8,
+    pub mask: Level,
+    pub prefix: u32,
+    pub len: u64,
+    pub out_len: u32,
+}
+
+pub fn check_huge(c: &HugeC) -> Result<(), String> {
+    if !c.mask.cpu_has() {
+        return Ok(());
+    }
+    let api = api_of(c.variant);
+    unsafe { *api.features = cshim::mask_for(c.mask) };
+    let pre = Content { kind: 3, seed: c.len }.expand(c.prefix as usize);
+    let mut all = vec![0u8; c.prefix as usize + c.len as usize];
+    all[..pre.len()].copy_from_slice(&pre);
+    let mut h = Box::new(CHasher::zeroed());
+    let mut out = vec![0u8; c.out_len as usize];
+    unsafe {
+        (api.init)(&mut *h);
+        (api.update)(&mut *h, all.as_ptr() as *const c_void, c.prefix as usize);
+        (api.update)(&mut *h, all[c.prefix as usize..].as_ptr() as *const c_void, c.len as usize);
+        (api.finalize_seek)(&*h, 5, out.as_mut_ptr(), out.len());
+        *api.features = cshim::F_UNDEFINED;
+    }
+    let want = b3spec::root(&b3spec::KeyFlags::hash(), &all).xof(5, c.out_len as usize);
+    eq_bytes(&format!("{}: one update of {} bytes after {} bytes, {} output bytes from offset 5", api.name, c.len, c.prefix, c.out_len), &out, &want)
+}
+
+fn huge_items(tier: Tier) -> Box<dyn Iterator<Item = HugeC>> {
+    let mut v = vec![HugeC { variant: 0, mask: Level::Avx512, prefix: 1, len: (1u64 << 31) + 1024, out_len: 200_000 }];
+    if tier == Tier::Thorough {
+        v.push(HugeC { variant: 1, mask: Level::Avx512, prefix: 0, len: (1u64 << 32) + 1, out_len: 1_000_000 });
+        v.push(HugeC { variant: 0, mask: Level::Avx2, prefix: 1025, len: 1u64 << 32, out_len: 64 });
+        v.push(HugeC { variant: 0, mask: Level::Sse41, prefix: 3 * 1024, len: (1u64 << 32) + 5 * 1024 + 3, out_len: 64 });
+    }
+    Box::new(v.into_iter())
+}
+
 pub fn subs() -> Vec<Box<dyn DynSub>> {
-    vec![Box::new(PropSub::<Case> {
+    vec![
+        Box::new(crate::runner::EnumSub::<HugeC> {
+            name: "c-huge",
+            rule: "enumeration: one blake3_hasher_update of 2^31+1024 bytes (quick) / 2^32+1, 2^32, 2^32+5123 bytes (thorough) after a short prefix, and finalize_seek of up to 1 MB of output; vs spec (size_t arithmetic beyond 32 bits)",
+            items: huge_items,
+            classify: |c| Classes::new(true).tag(c.len >= (1u64 << 32), "update>=2^32-bytes").tag(c.out_len >= 100_000, "out_len>=100000"),
+            check: check_huge,
+            exhaustive: false,
+            known: None,
+            crumb: true,
+        }),
+        Box::new(PropSub::<Case> {
         name: "c-api-histories",
         rule: "proptest: (library build: assembly | C intrinsics) x (g_cpu_features mask: portable/SSE2/SSE4.1/AVX2/AVX-512) x (init | init_keyed | init_derive_key | init_derive_key_raw with NUL/invalid UTF-8) x 0-30 ops of update (sizes resolved against the running total) / update(NULL,0) / finalize(k) / finalize_seek(seek from the 64*K lattice, k<=3000) / finalize_seek(NULL,0) / reset / struct copy / swap; every output vs spec S[seek..seek+k] and vs the Rust crate, hasher bytes compared across finalize, reset hasher in lockstep with a fresh twin; non-trivial = >=2 updates with >1 chunk, or seek%64!=0, or a reset",
         cases: (24_000, 200_000),
@@ -359,3 +413,4 @@ pub fn subs() -> Vec<Box<dyn DynSub>> {
         crumb: true,
     })]
 }
+// (c-huge comes first so that its long single case overlaps with the histories of the other shards)
